@@ -33,7 +33,12 @@ void h_canon(void)
 	unsigned count[VG_CL + 2], next[VG_CL + 2], code, s, k, l, kraft = 0, used = 0, rank = 0;
 	uint32_t stream;
 	int got;
+#ifdef VG_SHAPE_CHAIN
+	/* concrete extreme shape: maximum-length codes: lengths 1, 2, ..., VG_CL-1, VG_CL, VG_CL (VG_CN == VG_CL + 1 symbols) */
+	for (k = 0; k < VG_CN; k++) len[k] = (uint8_t) (k + 1 < VG_CL ? k + 1 : VG_CL);
+#else
 	for (k = 0; k < VG_CN; k++) { len[k] = nondet_uchar(); __CPROVER_assume(len[k] <= VG_CL); }
+#endif
 	for (l = 0; l <= VG_CL + 1; l++) count[l] = 0;
 	for (k = 0; k < VG_CN; k++) { if (len[k] > 0) { count[len[k]]++; kraft += 1u << (VG_CL - len[k]); used++; } }
 	__CPROVER_assume(kraft == (1u << VG_CL) && used >= 2);            /* complete prefix code */
